@@ -592,6 +592,26 @@ class Check:
         import multiprocessing as mp
         ctx = mp.get_context("fork")
         results = [None] * len(cases)
+        # cases that ask for it run in a process of their own, forked from this one (which has not run the implementation): what they
+        # observe does not depend on the cases that happen to precede them in the shared worker
+        for i, c in enumerate(cases):
+            if isinstance(c, dict) and c.get("fresh_process"):
+                parent, child = ctx.Pipe(duplex=False)
+
+                def one(conn, k):
+                    try:
+                        conn.send(self.safe_run(cases[k]))
+                    finally:
+                        conn.close()
+                pr = ctx.Process(target=one, args=(child, i))
+                pr.start(); child.close()
+                try:
+                    results[i] = parent.recv() if parent.poll(self.CASE_TIMEOUT + 30) else {"exception": "ProcessCrash: no answer", "crash": True}
+                except (EOFError, OSError):
+                    results[i] = {"exception": "ProcessCrash: worker died (exit code %s) while running this case" % pr.exitcode, "crash": True}
+                pr.join(5)
+                if pr.is_alive():
+                    pr.kill(); pr.join()
         start = 0
         while start < len(cases):
             parent, child = ctx.Pipe(duplex=False)
@@ -599,6 +619,8 @@ class Check:
             def work(conn, lo):
                 try:
                     for i in range(lo, len(cases)):
+                        if results[i] is not None:
+                            continue
                         conn.send((i, self.safe_run(cases[i])))
                     conn.send((-1, None))
                 finally:
@@ -627,6 +649,8 @@ class Check:
             if done:
                 break
             crashed = last + 1
+            while crashed < len(cases) and results[crashed] is not None:
+                crashed += 1
             if crashed < len(cases):
                 results[crashed] = {"exception": "ProcessCrash: worker died (exit code %s) while running this case" % pr.exitcode, "crash": True}
             start = crashed + 1
